@@ -266,7 +266,14 @@ def _instrumented():
     return expr
 
 
-_COPY = _instrumented()
+# problems found while preparing the instrumented copy (the source no longer has the shape / the behaviour this harness mirrors):
+# reported by the C09 check as a broken correspondence -- never a reason to stop before the failing-input search has run
+IMPORT_PROBLEMS = []
+try:
+    _COPY = _instrumented()
+except (SystemExit, Exception) as _e:  # noqa: BLE001
+    IMPORT_PROBLEMS.append(("shape", str(_e)[:1500]))
+    _COPY = None
 
 
 # ------------------------------------------------------------------ canonical trees
@@ -693,8 +700,11 @@ def validate_copy(n: int = 400, seed: int = 12345):
     return len(fixed) + n
 
 
-if os.environ.get("GRAMMAR_CASES_SKIP_VALIDATE") != "1":
-    _VALIDATED = validate_copy(int(os.environ.get("GRAMMAR_CASES_VALIDATE_N", "400")))
+if os.environ.get("GRAMMAR_CASES_SKIP_VALIDATE") != "1" and _COPY is not None:
+    try:
+        _VALIDATED = validate_copy(int(os.environ.get("GRAMMAR_CASES_VALIDATE_N", "400")))
+    except (SystemExit, Exception) as _e:  # noqa: BLE001
+        IMPORT_PROBLEMS.append(("behaviour", str(_e)[:1500]))
 
 
 # ------------------------------------------------------------------ the selftest
